@@ -97,12 +97,18 @@ func runC04(e *core.Env) error {
 		if err != nil {
 			return err
 		}
-		if rr.Bool() {
+		// history 0 is fixed: two block-level integrations on ONE caching client, the first stores tx_value and has no
+		// use for the call data, the second stores tx_input — of the very block objects the first one was handed
+		sharp := h == 0
+		if rr.Bool() || sharp {
 			w.client = jrpc2.New(w.node.URL()+"/a", w.node.URL()+"/b", w.node.URL()+"/c").WithMaxReads(2 + rr.Intn(3)).WithPollDuration(time.Hour) // shared CACHING client, three URLs
 			w.tags["shared-cache"]++
 		}
 		nIG := 2 + rr.Intn(2)
 		sharedTable := rr.Bool()
+		if sharp {
+			nIG, sharedTable = 2, false
+		}
 		nApproval, stampCols := 0, 0
 		var igs []config.Integration
 		for i := 0; i < nIG; i++ {
@@ -110,7 +116,12 @@ func runC04(e *core.Env) error {
 			if sharedTable {
 				table = "shared"
 			}
-			fields := core.Pick(rr, [][]string{{"block_time"}, {"block_time", "log_addr"}, {"block_time", "tx_input"}, {"block_time", "tx_status"}})
+			fields := core.Pick(rr, [][]string{{"block_time"}, {"block_time", "log_addr"}, {"block_time", "tx_input"}, {"block_time", "tx_status"}, {"block_time", "tx_value"}})
+			if sharp {
+				fields = [][]string{{"block_time", "tx_value"}, {"block_time", "tx_input"}}[i]
+				igs = append(igs, transferIG(fmt.Sprintf("ig%d", i+1), table, fields, nil))
+				continue
+			}
 			if !sharedTable && rr.Chance(1, 6) {
 				// trace-indexing: blocks + trace_block; two of these on one caching client re-attach traces
 				igs = append(igs, traceIG(fmt.Sprintf("ig%d", i+1), table))
